@@ -117,6 +117,19 @@ def run_cases(chk, binp, cases, pf_ok, pf):
             groups.setdefault(c["group"], []).append((c, cont))
         if problems:
             bad.append((c, problems))
+    # a harmless construct added to a valid document: still valid
+    pairs = {}
+    for j in J:
+        c = j["case"]
+        r = j["runs"].get("cont=true,strict=true")
+        if "pair" in c and r is not None and r["outcome"] == "ok":
+            pairs.setdefault(c["pair"], {})[c["role"]] = (c, r)
+    for k, pr in pairs.items():
+        if "base" in pr and "harmless" in pr and pr["base"][1]["valid"] and not pr["harmless"][1]["valid"]:
+            c, r = pr["harmless"]
+            c = dict(c, base_doc=pr["base"][0]["doc"])
+            bad.append((c, [{"what": "a valid document becomes invalid through a construct that raises a warning at most",
+                             "errors": r["errors"][:6], "warnings": r["warnings"][:6]}]))
     # serialisation variants of one document: same sets
     for g, members in groups.items():
         ref = members[0][1]
@@ -236,6 +249,17 @@ def gen(chk):
             paths["/p%d" % k] = {rng.choice(["get", "put", "post"]): {"operationId": "op%d" % k, "responses": {"200": {"description": "ok", "schema": sch}}}}
         doc = {"swagger": "2.0", "info": {"title": "t", "version": "1"}, "paths": paths}
         cases.append({"doc": doc, "origin": "operations whose rejected examples share one warning text and add others", "repeats": 8})
+    # a valid document and the same document with one construct that raises a warning at most (a required property that is
+    # readOnly, a property satisfied through additionalProperties ...): warnings alone never make a document invalid
+    import copy
+    for i in range(len(G.HARMLESS) * (2 if chk.tier == "quick" else 10)):
+        fn = G.HARMLESS[i % len(G.HARMLESS)]
+        base = G.SpecGen(rng).spec()
+        d = copy.deepcopy(base)
+        what = fn(d, rng)
+        if what is not None:
+            cases.append({"doc": base, "origin": "a grammar document", "pair": i, "role": "base"})
+            cases.append({"doc": d, "origin": "the same document with: %s" % what, "pair": i, "role": "harmless"})
     # one offender of every rule, validated through the package-level defaults as well (global switch false, true, false)
     for i in range(len(G.BREAKING) * (2 if chk.tier == "quick" else 8)):
         rule, fn, _ = G.BREAKING[i % len(G.BREAKING)]
@@ -267,6 +291,9 @@ def replay(chk, path):
         return run(chk)
     c = dict(payload["case"], repeats=8)
     c.pop("group", None)
+    if "base_doc" in c:        # a valid document and the same document with a harmless construct
+        base = {"doc": c.pop("base_doc"), "origin": "the document without the construct", "pair": 0, "role": "base", "repeats": 2}
+        return run_cases(chk, binp, [base, dict(c, pair=0, role="harmless")], pf_ok, pf)
     if "docs" in c:          # a history of documents through one validator: the last one is also validated alone
         c = {"doc": c["docs"][-1], "origin": c.get("origin"), "repeats": 2, "history": c["docs"]}
     run_cases(chk, binp, [c], pf_ok, pf)
